@@ -1093,7 +1093,7 @@ pub fn run(ctx: &Ctx) -> ! {
          Insider mutators (membership key from the hook, MAC recomputed by the reference model, rebuilt message proven identical for the unmodified case): re-attribution to another member's leaf, wrong and stale \
          confirmation tag, content or authenticated_data changed with a fresh membership tag; structural forgeries by the committer itself (leaf and content re-signed with its keys, parent hash recomputed over the \
          modified path by the independent tree model, MAC recomputed; two positive controls prove the forger produces acceptable messages): every shorter update path, a longer one, a wrong parent hash, another \
-         member's HPKE or signature key in the new leaf, the unchanged HPKE key, a leaf signed for another index. Receivers: clones of members, the joiner's client (Welcome, tree), an external committer and an observer (GroupInfo). \
+         member's HPKE or signature key in the new leaf, the unchanged HPKE key, a leaf signed for another index; and, without the tree model, for every public commit (also tree-changing ones, also for a receiver that the commit removes): one path node too many / too few, a broken leaf signature, the committer's current leaf in place of the path leaf, content re-signed and re-MACed. Out-of-band trees are bit-flipped, truncated and padded with blank nodes (vector length corrected). Receivers: clones of members, the joiner's client (Welcome, tree), an external committer and an observer (GroupInfo). \
          Insider forgeries of a Welcome (GroupInfo opened with the joiner secret, changed, re-sealed for the joiner; unchanged re-sealed control must be accepted): signature bit, signer index, re-signed wrong confirmation tag, re-signed wrong epoch. Cross-epoch replay: GroupInfo messages (with and without tree) and a proposal and a commit made by a discarded clone of a member in epoch n (so no receiver has seen them or consumed their keys) are delivered to every other member in epochs n+1 and n+2. Oracle: never Ok, never a panic; parts of a Welcome addressed to other joiners are exempt; genuine copies are delivered afterwards and must report the true sender, payload and authenticated data. \
          Non-trivial = rejection by an authentication / validation check (error class other than decode, group id, version, epoch); distinct by (message kind, mutation, receiver, epoch).",
         &hp,
